@@ -44,6 +44,15 @@ theorem fork_eq_base_tokens_errors (B : Base) (c : Cfg) (fuel n : Nat) (s : St)
     (run (scanFork B c) fuel n s).2.errs.length = (run (scanBase B c) fuel n s).2.errs.length := by
   rw [fork_eq_base_on_extfree B c fuel n s h]; exact ⟨rfl, rfl, rfl⟩
 
+/-- the same for streams of every length, from an invariant of the unpatched run: if `Inv` holds initially, is
+    preserved by the unpatched `Scan`, and implies that the next token uses no extension, the patched and the
+    unpatched scanner produce the same stream of any length `n`. -/
+theorem fork_eq_base_of_invariant (B : Base) (c : Cfg) (fuel : Nat) (Inv : St → Prop)
+    (hsafe : ∀ s, Inv s → safeScan B c fuel s = true)
+    (hstep : ∀ s, Inv s → Inv (scanBase B c fuel s).st) (s : St) (h0 : Inv s) (n : Nat) :
+    run (scanFork B c) fuel n s = run (scanBase B c) fuel n s :=
+  fork_eq_base_on_extfree B c fuel n s (safeRun_of_invariant B c fuel Inv hsafe hstep n s h0)
+
 /-- a sufficient condition on characters: a token that is not an identifier and starts with a character
     other than '#' and the macro character is safe -/
 theorem safeAt_of_no_ext_char (B : Base) (c : Cfg) (s : St)
